@@ -145,6 +145,21 @@ def writeDone (s : S) (exp : Bytes) (report : Nat) (o : WObs) : Option S :=
      (o.err = .nil → o.out = exp ∧ o.rlen = 0 ∧ o.wlen = 0)
   then some { s with owed := exp.drop o.out.length, wpend := none } else none
 
+/-- `pump`, write side: a pending AsyncWriteNext progresses or completes. -/
+def pumpWrite (s : S) (w : WObs) : Option S :=
+  match w.stat, s.wpend with
+  | .none, none => if w.out = [] then some s else none
+  | .pending, some _ =>
+      if w.out.isPrefixOf s.owed = true then some { s with owed := s.owed.drop w.out.length } else none
+  | .done, some total => if w.err = .nil then writeDone s s.owed total w else none
+  | _, _ => none
+
+/-- `pump`, read side: a pending AsyncReadNext completes, stays pending, or there is none. -/
+def pumpRead (s : S) (r : RObs) : Option S :=
+  match r.stat with
+  | .none => if s.rpend then none else some s
+  | _ => if s.rpend then readDone s true r else none
+
 /-- One monitored step. `none` = the observation violates C19. -/
 def step (s : S) : Op → Obs → Option S
   | .feed b, .ok => some { s with inb := s.inb ++ b }
@@ -180,21 +195,7 @@ def step (s : S) : Op → Obs → Option S
           then some { s with owed := (s.owed ++ frame p).drop o.out.length, wpend := some (s.owed ++ frame p).length }
           else none
       | _ => none
-  | .pump, .wr w r =>
-      -- write side first, then read side (independent of each other)
-      let s1 : Option S :=
-        match w.stat, s.wpend with
-        | .none, none => if w.out = [] then some s else none
-        | .pending, some _ =>
-            if w.out.isPrefixOf s.owed = true then some { s with owed := s.owed.drop w.out.length } else none
-        | .done, some total => if w.err = .nil then writeDone s s.owed total w else none
-        | _, _ => none
-      match s1 with
-      | none => none
-      | some s1 =>
-        match r.stat with
-        | .none => if s1.rpend then none else some s1
-        | _ => if s1.rpend then readDone s1 true r else none
+  | .pump, .wr w r => (pumpWrite s w).bind (pumpRead · r)
   | _, _ => none
 
 /-- Run the monitor over a trace. -/
